@@ -467,7 +467,7 @@ namespace plan
       ratio::atom *a;
       Val st, en, amount;
     };
-    std::map<ratio::item *, std::vector<TA>> on_sv, on_rr;
+    std::map<ratio::item *, std::vector<TA>> on_sv, on_rr, on_ag;
     for (auto *af : aflaws)
     {
       ratio::atom &a = af->get_atom();
@@ -480,6 +480,26 @@ namespace plan
       {
         viol("P3", "P3.tau_not_single", "active atom " + aname(a) + " is not assigned to exactly one instance");
         continue;
+      }
+      {
+        bool is_ag = false;
+        std::vector<const ratio::type *> q{&tau->get_type()};
+        while (!q.empty())
+        {
+          const ratio::type *ty = q.back();
+          q.pop_back();
+          if (ty->get_name() == "Agent")
+            is_ag = true;
+          for (auto *st : ty->get_supertypes())
+            q.push_back(st);
+        }
+        Val when;
+        if (is_ag && (num(&a, none, {"start"}, when) || num(&a, none, {"at"}, when)))
+        {
+          t.st = when;
+          on_ag[tau].push_back(t);
+          continue;
+        }
       }
       if (!num(&a, none, {"start"}, t.st) || !num(&a, none, {"end"}, t.en))
         continue;
@@ -602,6 +622,39 @@ namespace plan
       for (auto &p : (type == "StateVariable" ? on_sv : on_rr))
         if (p.first->get_id() == id)
           atoms = &p.second;
+      if (type == "Agent")
+      { // an agent's timeline: the ids of exactly its active atoms, by start (or at) time
+        std::vector<TA> *ag = nullptr;
+        for (auto &p : on_ag)
+          if (p.first->get_id() == id)
+            ag = &p.second;
+        std::set<uintptr_t> listed, expect;
+        std::vector<uintptr_t> order;
+        for (size_t k = 0; k < vals->size(); ++k)
+          if (auto *lv = dynamic_cast<smt::long_val *>(&*vals->get(k)))
+            listed.insert(static_cast<uintptr_t>(lv->get())), order.push_back(static_cast<uintptr_t>(lv->get()));
+        if (ag)
+          for (auto &t : *ag)
+            expect.insert(t.a->get_id());
+        cnt.inc("agent_timelines");
+        if (listed != expect)
+          viol("P5", "P5.agent_timeline_atoms", "the extracted timeline of an agent lists " + std::to_string(listed.size()) + " atoms but " + std::to_string(expect.size()) + " active atoms are on that agent");
+        else if (ag)
+          for (size_t k = 0; k + 1 < order.size(); ++k)
+          {
+            const TA *x = nullptr, *y = nullptr;
+            for (auto &t : *ag)
+            {
+              if (t.a->get_id() == order[k])
+                x = &t;
+              if (t.a->get_id() == order[k + 1])
+                y = &t;
+            }
+            if (x && y && vcmp(x->st, y->st) > 0)
+              viol("P5", "P5.agent_timeline_order", "the extracted timeline of an agent lists " + aname(*x->a) + " (at " + vtext(x->st) + ") before " + aname(*y->a) + " (at " + vtext(y->st) + ")");
+          }
+        continue;
+      }
       if (type != "StateVariable" && type != "ReusableResource")
         continue;
       for (size_t k = 0; k < vals->size(); ++k)
